@@ -5,6 +5,10 @@ Driver part for C32 (watermark).  Ops:
   wm.begin <i> | wm.done <i>       a whole call, run to completion (no other thread runs)
   wm.beginmany <i,j,…> | wm.donemany <i,j,…>   BeginMany / DoneMany, whole calls
   wm.wait <i>                      WaitForMark with an already cancelled context → ok | pending
+  wm.waitstart <wid> <i>           WaitForMark(ctx, i) in a goroutine → nil (returned at once) | parked
+  wm.waitcancel <wid>              cancel that waiter's context → ctxerr | notparked
+  wm.waiters                       → ok:parked=<ids> nil=<ids> err=<ids>   (`early:` instead of `ok:` in the
+                                   implementation column if a waiter returned nil before the mark reached its index)
   wm.spawn <tid> <begin|done> <i>  a call in a scheduled goroutine, parked before its first step
   wm.step <tid>                    run <tid> up to its next yield point
                                    (wm.begin.mid, wm.advance.loop) or its return
@@ -39,6 +43,7 @@ structure DSt where
   baseAtDone : Bool := true     -- wm.rebuildBase = done
   win : Option WSt := some initW   -- window model, while the case is purely sequential
   diverged : String := ""
+  waiters : List (Nat × Nat × Nat) := []   -- (waiter id, index, state: 0 parked, 1 returned nil, 2 returned ctx error)
 
 def setCfg (d : DSt) (kv : String) : Option DSt :=
   match kv.splitOn "=" with
@@ -50,7 +55,7 @@ def setCfg (d : DSt) (kv : String) : Option DSt :=
       else none
     | "wm.tracksZero" => do let b ← boolOfString? v; pure { d with c := { d.c with tracksZero := b } }
     | "wm.holdsAtDone" => do let b ← boolOfString? v; pure { d with c := { d.c with holdsAtDone := b } }
-    | "wm.advanceShape" | "wm.windowShape" => if v == "true" then some d else none
+    | "wm.advanceShape" | "wm.windowShape" | "wm.waitCancelShape" => if v == "true" then some d else none
     | "wm.growRule" => if v == "slots" then some { d with grow := true } else if v == "offset" then some { d with grow := false } else none
     | "wm.copyRule" => if v == "all" then some { d with copyAll := true } else if v == "uptoLast" then some { d with copyAll := false } else none
     | "wm.rebuildBase" => if v == "done" then some { d with baseAtDone := true } else if v == "donePlus1" then some { d with baseAtDone := false } else none
@@ -186,7 +191,7 @@ def parseList? (s : String) : Option (List Nat) :=
 
 def step (d : DSt) (toks : List String) : DSt × String :=
   match toks with
-  | ["wm.new"] => ({ d with s := initSt, touched := [], ignored := [], tmp := 1000000, sched := [], win := some initW, diverged := "" }, "ok\t*")
+  | ["wm.new"] => ({ d with s := initSt, touched := [], ignored := [], tmp := 1000000, sched := [], win := some initW, diverged := "", waiters := [] }, "ok\t*")
   | ["wm.begin", i] =>
     match natOf? i with
     | some i => let d' := wholeCall d (.begin i); (d', reply d' ("done" ++ d'.diverged))
@@ -203,6 +208,31 @@ def step (d : DSt) (toks : List String) : DSt × String :=
     match parseList? l with
     | some is => let d' := wholeCall d (.doneMany is); (d', reply d' ("done" ++ d'.diverged))
     | none => (d, "bad-op")
+  | ["wm.waitstart", wid, i] =>
+    -- WaitForMark(ctx, i) in its own goroutine, with a context that can be cancelled later
+    match natOf? wid, natOf? i with
+    | some wid, some i =>
+      if d.waiters.any (fun x => x.1 == wid) then (d, "bad-op") else
+      let st := if d.s.doneUntil ≥ i then 1 else 0
+      ({ d with waiters := d.waiters ++ [(wid, i, st)] }, reply d (if st == 1 then "nil" else "parked"))
+    | _, _ => (d, "bad-op")
+  | ["wm.waitcancel", wid] =>
+    -- the context of a parked waiter is cancelled: it returns ctx.Err(); nobody else is released
+    match natOf? wid with
+    | some wid =>
+      match d.waiters.find? (fun x => x.1 == wid) with
+      | some (_, _, 0) =>
+        ({ d with waiters := d.waiters.map (fun x => if x.1 == wid then (x.1, x.2.1, 2) else x) }, reply d "ctxerr")
+      | some _ => (d, reply d "notparked")
+      | none => (d, "bad-op")
+    | none => (d, "bad-op")
+  | ["wm.waiters"] =>
+    -- every parked waiter whose index the mark has reached has been notified and returns nil
+    let ws := d.waiters.map (fun x => if x.2.2 == 0 && decide (x.2.1 ≤ d.s.doneUntil) then (x.1, x.2.1, 1) else x)
+    let ids (st : Nat) : String :=
+      let l := (ws.filter (fun x => x.2.2 == st)).map (fun x => toString x.1)
+      if l.isEmpty then "-" else ",".intercalate l
+    ({ d with waiters := ws }, s!"ok:parked={ids 0} nil={ids 1} err={ids 2}\tok:*")
   | ["wm.wait", i] =>
     match natOf? i with
     | some i => (d, reply d (if d.s.doneUntil ≥ i then "ok" else "pending"))
